@@ -525,12 +525,18 @@ AllClosed(r, sc) ==
 
 \* ---------------------------------------------- judging a recorded response
 (* out = [status, hdr = [key |-> [has, v]], nbody, err = [json, code], list = [ok, name, items],
-          linkp = [ok, path, last, n], calls = <<call...>>, objs = <<[k, closes, written, commits, cdig]...>>] *)
+          linkp = [ok, path, last, n], crp = [ok, start, end, total], calls = <<call...>>, objs = <<[k, closes, written, commits, cdig]...>>] *)
 Universal(rq, out) ==
   /\ out.status \in 200..299 \cup 400..599
   /\ out.status >= 400 => (out.err.json /\ out.hdr["ctype"] = H(MT_json))  \* a JSON OCI error body, declared as JSON
   /\ out.err.code \in StdCodes => out.status = StdStatus[out.err.code]    \* status agrees with code
   /\ (out.hdr["clen"].has /\ rq.m # "HEAD") => out.hdr["clen"].v = Dec(out.nbody)
+  \* a partial response announces exactly what it carries (crp = the Content-Range header read as
+  \* "bytes start-end/total", each number clamped to +-10^9 by the harness)
+  /\ (out.status = 206 /\ rq.m # "HEAD") =>
+       /\ out.hdr["crange"].has /\ out.crp.ok
+       /\ out.crp.start >= 0 /\ out.crp.end < out.crp.total
+       /\ out.crp.end - out.crp.start + 1 = out.nbody
   /\ \A i \in 1..Len(out.calls) : CallArgsValid(out.calls[i])
   /\ \A i \in 1..Len(out.objs) : /\ out.objs[i].closes >= 1
                                  /\ out.objs[i].commits > 0 => Ref!IsDigest(out.objs[i].cdig)
